@@ -1,5 +1,5 @@
 (* C21 -- undefined values behave as documented for every undefined type.
-   Finite domain: 8 types x the operation table (Spec/UndefSpec.v, [domain], 1668 cells).
+   Finite domain: 8 types x the operation table (Spec/UndefSpec.v, [domain], 1868 cells).
    The theorems below are about the class tables of Model/UndefSnapshot.v; the check
    regenerates the tables from /repo on every run and re-proves the same statements about
    them through C21_table_sound (build/C21/Gen_undef.v). *)
@@ -10,23 +10,39 @@ From JV Require Import Model.Undef Spec.UndefSpec Proofs.UndefProofs Model.Undef
 (* the generic step: a class table that passes the boolean check satisfies the documented
    outcome on every cell of the domain *)
 Theorem C21_table_sound : forall (T : Undef.tables) (F : Undef.facts), table_ok T F = true ->
-  forall c o, In (c, o) domain ->
+  forall c o, In (c, o) domain -> known_deviation (c, o) = false ->
   exists s, spec c o = Some s /\ agrees (fst (dispatch T F c o)) s = true.
 Proof. exact table_ok_sound. Qed.
 Print Assumptions C21_table_sound.
 
 (* forall (type, operation, other operand) in the domain: dispatch over the class tables =
    the documented outcome *)
-Theorem C21_undefined_table : forall c o, In (c, o) domain ->
+Theorem C21_undefined_table : forall c o, In (c, o) domain -> known_deviation (c, o) = false ->
   exists s, spec c o = Some s /\ agrees (fst (dispatch tables facts c o)) s = true.
 Proof. apply table_ok_sound. vm_compute. reflexivity. Qed.
 Print Assumptions C21_undefined_table.
 
+(* the guard is needed: the full statement (without known_deviation) is FALSE.  Markup("a") +
+   ChainableUndefined succeeds although "+" is documented to raise (Markup.__add__ finds
+   ChainableUndefined.__html__); witness and the exact extent of the deviation: *)
+Theorem C21_markup_concat_refuted : exists c o s, In (c, o) domain /\ spec c o = Some s /\
+  agrees (fst (dispatch tables facts c o)) s = false.
+Proof.
+  exists (Named BC), (OpArith Add Rev (OB KMarkup)), SUndefinedError.
+  assert (E : find (fun x => match x with (Named BC, OpArith Add Rev (OB KMarkup)) => true | _ => false end) domain
+              = Some (Named BC, OpArith Add Rev (OB KMarkup))) by (vm_compute; reflexivity).
+  apply find_some in E. split; [exact (proj1 E)|]. split; vm_compute; reflexivity.
+Qed.
+Theorem C21_known_deviation_extent :
+  filter known_deviation domain = [(Named BC, OpArith Add Rev (OB KMarkup)); (Logging BC, OpArith Add Rev (OB KMarkup))]
+  /\ forallb (fun x => negb (agrees (fst (dispatch tables facts (fst x) (snd x))) SUndefinedError)) (filter known_deviation domain) = true.
+Proof. vm_compute. split; reflexivity. Qed.
+
 (* the model never falls outside the modelled fragment on the domain (no Unmodelled result
    hides behind a documented outcome: [agrees] is false on Unmodelled), and the domain is
    the whole cross product minus the cells the documentation is silent about *)
-Theorem C21_domain_size : length all_cells = 1704%nat /\ length domain = 1668%nat /\
-  forallb (fun x => match snd x with OpPickle | OpRevContains _ | OpArith Mod Rev (OB KStr) => true | _ => false end) unspecified_cells = true.
+Theorem C21_domain_size : length all_cells = 1920%nat /\ length domain = 1868%nat /\
+  forallb (fun x => match snd x with OpPickle | OpRevContains _ | OpArith Mod Rev (OB KStr) | OpArith Mod Rev (OB KMarkup) | OpArith Mul Rev (OB KMarkup) => true | _ => false end) unspecified_cells = true.
 Proof. vm_compute. repeat split; reflexivity. Qed.
 Print Assumptions C21_domain_size.
 
